@@ -15,10 +15,16 @@ use lightmotif::scan::Scanner;
 use lightmotif::seq::{EncodedSequence, StripedSequence};
 
 mod rng;
+mod io;
 use rng::Rng;
 
+pub static LAST_PANIC: std::sync::Mutex<String> = std::sync::Mutex::new(String::new());
+
 fn quiet_panics() {
-    std::panic::set_hook(Box::new(|_| {}));
+    std::panic::set_hook(Box::new(|info| {
+        let loc = info.location().map(|l| format!("{}:{}", l.file().rsplit("/repo/").next().unwrap_or(l.file()), l.line())).unwrap_or_default();
+        if let Ok(mut g) = LAST_PANIC.lock() { *g = loc; }
+    }));
 }
 
 fn dna_seq(rng: &mut Rng, len: usize, with_n: bool) -> Vec<Nucleotide> {
@@ -223,6 +229,11 @@ fn sweep_scan(which: &str, tier: &str, seed: u64) -> (usize, Option<String>) {
     (n, fail)
 }
 
+/// map a Verus unit name (io_jaspar_next, io_uniprobe_build_matrix, ...) to the format whose sweep exercises it
+fn unit_fmt(unit: &str) -> &str {
+    if unit.contains("jaspar16") { "jaspar16" } else if unit.contains("jaspar") { "jaspar" } else if unit.contains("transfac") { "transfac" } else if unit.contains("uniprobe") { "uniprobe" } else { "" }
+}
+
 fn main() {
     quiet_panics();
     let args: Vec<String> = std::env::args().collect();
@@ -245,6 +256,8 @@ fn main() {
             match pid {
                 "C02" => { if unit.is_empty() || unit.starts_with("scan_next") { run("scan_next", sweep_scan("next", tier, seed)); } }
                 "C03" => { if unit.is_empty() || unit.starts_with("scan_max") { run("scan_max", sweep_scan("max", tier, seed)); } }
+                "C14" => { let (n, f) = io::sweep_c14(tier, seed, unit_fmt(unit)); total += n; fails.extend(f); }
+                "C15" => { let (n, f) = io::sweep_c15(tier, seed, unit_fmt(unit)); total += n; fails.extend(f); }
                 _ => {}
             }
             for f in &fails { println!("FAIL {}", f); }
@@ -312,6 +325,12 @@ fn replay_file(txt: &str) -> Result<(), String> {
                 consumed: field(&txt, "consumed").ok_or("consumed")?.parse().map_err(|_| "consumed")?,
             };
             if unit == "scan_next" { check_scan_next(&c) } else { check_scan_max(&c) }
+        }
+        u if u.starts_with("io_") => {
+            let fmt = field(&txt, "format").ok_or("format")?.trim_matches('"').to_string();
+            let hex = field(&txt, "hex").ok_or("hex")?.trim_matches('"').to_string();
+            let cap: usize = field(&txt, "cap").ok_or("cap")?.parse().map_err(|_| "cap")?;
+            io::replay(u, &fmt, &hex, cap)
         }
         _ => Err(format!("unknown unit {}", unit)),
     }
